@@ -46,18 +46,18 @@ type c19Req struct {
 const c19Marker = "/c19rd/"
 
 type c19Cap struct {
-	mu      sync.Mutex
-	reqs    []c19Req
-	dials   map[string]string // client socket address -> address the client wanted
+	mu    sync.Mutex
+	reqs  []c19Req
+	dials map[string]string // client socket address -> address the client wanted
 	// epoch counts the cases; a connection belongs to the case that was running when it was dialled. A request served on
 	// a connection of an earlier case (the client gave up or is still running while the next case has begun - seen once
 	// under heavy load) is answered 503 and not recorded: it is not this case's request.
 	epoch      int
 	dialEpoch  map[string]int
 	staleCount int
-	script  *c19Case
-	index   [][]byte // per repo of script
-	archive []byte
+	script     *c19Case
+	index      [][]byte // per repo of script
+	archive    []byte
 
 	plainAddr, tlsMarkAddr string // direct capture
 	proxyURL               string // proxy capture
